@@ -22,7 +22,7 @@ type Case struct {
 	RelAB, RelBC string
 }
 
-var opts = gen.Opts{Str: gen.StrHot, Syms: true, NoKwMark: true, NoNUL: true, SmallInt: true}
+var opts = gen.Opts{Str: gen.StrHot, Syms: true, NoKwMark: true, NoNUL: true}
 
 func variant(t *rapid.T, label string, a val.V) (val.V, string) {
 	switch c := rapid.IntRange(0, 9).Draw(t, label+"rel"); {
